@@ -218,13 +218,14 @@ func (e *fsEngine) expectedFor(in *fsInput) (map[string][]byte, error) {
 }
 
 type fsOutcome struct {
-	exit      int
-	killedBy  string // "" | "injected-kill" | "signal"
-	log       *frLog
-	stderr    string
-	violation string // "" or description
-	vfile     string
-	stray     int
+	exit        int
+	killedBy    string // "" | "injected-kill" | "signal"
+	log         *frLog
+	stderr      string
+	violation   string // "" or description
+	vfile       string
+	stray       int
+	contentLost bool
 }
 
 // execFault runs `falco fmt -w args…` on a pristine copy under one fault and
@@ -346,6 +347,15 @@ func (e *fsEngine) execFault(in *fsInput, exp map[string][]byte, f fsFault) (*fs
 			out.vfile = name
 			break
 		}
+		// The statement names statement-only snippets as a kind the formatter does
+		// not handle. Should a run nevertheless succeed and rewrite such a file,
+		// it must at least not lose statements: every `;` of the input survives.
+		if in.Class == "snippet" && !isOrig && strings.Count(string(got), ";") < strings.Count(string(orig), ";") {
+			out.violation = fmt.Sprintf("statement-only snippet %s was rewritten (exit=%d) and lost statements: %d `;` before, %d after; the file now holds %q", name, out.exit, strings.Count(string(orig), ";"), strings.Count(string(got), ";"), clipS(string(got), 80))
+			out.vfile = name
+			out.contentLost = true
+			break
+		}
 		failed := out.exit != 0 && out.killedBy != "injected-kill"
 		if single && failed && !isOrig {
 			out.violation = fmt.Sprintf("the command failed (exit=%d %s) but %s was modified (it now holds the formatted text)", out.exit, out.killedBy, name)
@@ -415,12 +425,17 @@ func (e *fsEngine) record(in *fsInput, f fsFault, o *fsOutcome, seed uint64, tie
 			fk = "short"
 		}
 		var key string
-		switch f.Kind {
-		case "inject":
+		switch {
+		case o.contentLost:
+			key = "C16/damaged:snippet:content-lost"
+		}
+		switch {
+		case key != "":
+		case f.Kind == "inject":
 			key = fmt.Sprintf("C16/damaged:%s:%s:%s", in.Class, f.Call, fk)
-		case "rlimit":
+		case f.Kind == "rlimit":
 			key = fmt.Sprintf("C16/damaged:%s:rlimit_fsize", in.Class)
-		case "perm":
+		case f.Kind == "perm":
 			key = fmt.Sprintf("C16/damaged:%s:perm:%s", in.Class, f.Perm)
 		default:
 			key = fmt.Sprintf("C16/damaged:%s:fault-free", in.Class)
@@ -759,4 +774,11 @@ func fsInputs(tier string, seed uint64) []*fsInput {
 		}
 	}
 	return ins
+}
+
+func clipS(s string, n int) string {
+	if len(s) > n {
+		return s[:n]
+	}
+	return s
 }
